@@ -1,6 +1,6 @@
 """Kernel rules for the full-matrix Python kernels (dtw.warping_paths, dtw.warping_paths_affinity, dp.dp)."""
 from ..cfront import AnalysisError
-from ..ir import fmt, walk_expr, walk_stmts, dotted
+from ..ir import fmt, walk_expr, walk_stmts, dotted, orient
 from .. import sym, kernels
 from ..sym import var as V, const as C, add, sub
 from ..symexec import subst_expr, norm_minmax, reads_of
@@ -103,9 +103,10 @@ def rule_rec_dtw2d(ctx, F):
     okg = False
     for g in guard:
         for c in kern._conj(g[1][-1:]):
-            if c[0] == 'bin' and c[1] == '>' and c[2] == F.D:
+            o = orient(c, F.D)
+            if o is not None and o[0] == '>':
                 okg = True
-                F.max_step_expr = c[3]
+                F.max_step_expr = o[2]
     ctx.check(okg, 'R-REC', F.file, F.name, 'max_step guard', 'no guard `d > max_step -> skip cell` before the DP store', F.inner_line)
     # allocation shape (r + 1, c + 1) filled with inf
     al = F.env0.get(F.arr)
@@ -206,10 +207,11 @@ def rule_dom_py2d(ctx, m, F, keep_int_repr):
         for x in walk_expr(d):
             if x[0] == 'cond':
                 for c in kern._conj([x[1]]):
-                    if c[0] == 'bin' and c[1] in ('>', '>=') and c[3][0] == 'attr':
+                    o = orient(c, lambda e: e[0] != 'attr')
+                    if o is not None and o[0] in ('>', '>=') and o[2][0] == 'attr':
                         cm = True
-                        at = c[3][2]
-                        ctx.check(c[1] == '>', 'R-PRUNE', F.file, F.name, 'final threshold comparator [keep_int_repr=%s]' % keep_int_repr,
+                        at = o[2][2]
+                        ctx.check(o[0] == '>', 'R-PRUNE', F.file, F.name, 'final threshold comparator [keep_int_repr=%s]' % keep_int_repr,
                                   'only `d > max_dist` may become infinity', ev[3].line)
                         ctx.check(at.startswith('adj_') == keep_int_repr, 'R-DOM', F.file, F.name, 'final threshold domain [keep_int_repr=%s]' % keep_int_repr,
                                   'the final comparison mixes domains: distance is in the %s domain, threshold is .%s' % ('internal' if keep_int_repr else 'result', at), ev[3].line)
